@@ -124,7 +124,7 @@ func c12RaceGen(o *out, r *rng, tier string) {
 	e := c11Setup()
 	n := 24
 	if tier == "thorough" {
-		n = 400
+		n = 150
 	}
 	var requests, bad atomic.Int64
 	var firstBad atomic.Value
